@@ -22,7 +22,7 @@ def cells(tier):
     for size in [1, 2]:
         for gn, g in G.items():
             for hn, h in H.items():
-                if q and gn == "M3/1" and hn == "M3/2":
+                if q and hn == "M3/2" and (gn == "M3/1" or size == 2):
                     continue
                 for on, o in {"cgroup": cgroup("G"), "call": CALL}.items():
                     acts = [g, h, [o, A("G2", 1, name="gname", reuse=True, needs_cancelled="G")]]
